@@ -121,6 +121,27 @@ func ruleNoUncancellableBlock() check.Rule {
 					switch b.What {
 					case "wait":
 						report(b, "wait", resNode(b.Pkg.TypesInfo, b.Recv, b.Expr))
+						// a subscription that is handed to a composite must be handed over before it is awaited
+						if wn := resNode(b.Pkg.TypesInfo, b.Recv, b.Expr); wn != "" && b.Node != nil {
+							fn := innermostFunc(m, b.Pkg, b.Node)
+							for _, op := range sc.SubOps {
+								if op.Method != "AddUnsubscribable" || op.Call == nil || innermostFunc(m, op.Pkg, op.Call) != fn {
+									continue
+								}
+								if resNode(op.Pkg.TypesInfo, op.Arg, op.ArgExpr) != wn {
+									continue
+								}
+								key := fmt.Sprintf("%s/%s/registered-before-wait#%d", sc, model.CtxKey(b.Ctx, b.Slot), cnt["wait"])
+								addCall := op.Call
+								if pathsPassBefore(funcBody(fn), b.Node, func(n ast.Node) bool { return n.Pos() <= addCall.Pos() && addCall.End() <= n.End() }) {
+									if armed {
+										c.OK(key, b.Pos, "the awaited subscription is handed to its composite before the wait starts")
+									}
+								} else {
+									c.Report(armed, key, b.Pos, "the subscription is awaited before it is handed to the composite subscription that is meant to cancel it: while the wait lasts nothing can unsubscribe this source")
+								}
+							}
+						}
 					case "range-chan":
 						report(b, "range-chan", resNode(b.Pkg.TypesInfo, nil, b.Expr))
 					case "select":
